@@ -14,10 +14,10 @@ for log in sys.argv[1:]:
         if "demo_base_exit" not in f:
             print("skip", name, kv); continue
         src = None
-        mm = re.match(r"(C\d+)_M([23456])_(\d+)", name)
+        mm = re.match(r"(C\d+)_M([234567])_(\d+)", name)
         if mm:
             src = "/tmp/wt-%s/MUT%s/%s" % mm.groups()
-            if mm.group(2) in ("5", "6"):
+            if mm.group(2) in ("5", "6", "7"):
                 src = "/tmp/wt%s-%s/MUT%s/%s" % (mm.group(2), mm.group(1), mm.group(2), mm.group(3))
         else:
             mm = re.match(r"(C\d+)_(\d+)", name)
